@@ -527,12 +527,22 @@ fn main() {
                         let full = CubeM::new(x, !x);
                         let v1 = 1u32 << rng.below(32);
                         let v2 = 1u32 << rng.below(32);
+                        // a full-width minterm split into two compatible parts, neither implying the other: by
+                        // polarity (all positive literals | all negative literals), by halves, at random
+                        for (p1, p2) in [
+                            (CubeM::new(x, 0), CubeM::new(0, !x)),
+                            (CubeM::new(x & 0xffff, !x & 0xffff), CubeM::new(x & 0xffff_0000, !x & 0xffff_0000)),
+                            (CubeM::new(x & v2.wrapping_sub(1), !x & !v2.wrapping_sub(1)), CubeM::new(x & !v2.wrapping_sub(1), !x & v2.wrapping_sub(1))),
+                        ] {
+                            exec(ctx, &ev_cubes("pair", 32, &[p1, p2]), &mut rng);
+                            exec(ctx, &ev_cubes("pair", 32, &[p2, p1]), &mut rng);
+                        }
                         for cb in [full, CubeM::new(x & !v1, !x & !v1), CubeM::new(x & !v1 & !v2, !x & !v1 & !v2), CubeM::new(u32::MAX & !v1, 0), CubeM::new(0, u32::MAX)] {
                             exec(ctx, &ev_cubes("single", 32, &[cb]), &mut rng);
                             exec(ctx, &ev_cubes("pair", 32, &[cb, full]), &mut rng);
                             // the constants against the widest cubes, both ways round: the empty cube (one
                             // conflicting variable, many, all of them) and the cube without literals
-                            for k in [CubeM::new(v1, v1), CubeM::new(x | v1, !x | v1), CubeM::new(u32::MAX, u32::MAX), CubeM::new(0, 0)] {
+                            for k in [CubeM::new(v1, v1), CubeM::new(x | v1, !x | v1), CubeM::new(u32::MAX, u32::MAX), CubeM::new(0, 0)].into_iter().take(if cb == full { 4 } else { 1 }) {
                                 exec(ctx, &ev_cubes("pair", 32, &[k, cb]), &mut rng);
                                 exec(ctx, &ev_cubes("pair", 32, &[cb, k]), &mut rng);
                             }
